@@ -841,6 +841,24 @@ theorem translated_rand_interval_spec (rand a b : Int) (stream : List Nat) :
   rw [translated_rand_interval_eq]
   exact ⟨rand_interval_never_ub a b stream, fun r rest h => rand_interval_range_c a b stream r rest h⟩
 
+/-- `ibz_cornacchia_prime` (integers.c): p = 2 branch, call of the translated `ibz_sqrt_mod_p`, Euclidean `while` loop with its
+    partial division, the `res = res && …` chain -/
+theorem translated_cornacchia_prime_eq (x y n p : Int) (hp : 0 < p) (hn : n ≠ 0) :
+    SqiGen.Intbig.ibz_cornacchia_prime x y n p = ibzCornacchiaPrime n p := gen_ibz_cornacchia_prime x y n p hp hn
+
+/-- `ibz_cornacchia_prime`, translated code: never a false solution; and for an odd prime p and n ≥ 1 a solution is returned
+    whenever one with x ≠ 0 exists -/
+theorem translated_cornacchia_prime_spec (pn : Nat) (hp : pn.Prime) (n : Int) (hn : 1 ≤ n) (x y : Int) :
+    (∀ x' y', SqiGen.Intbig.ibz_cornacchia_prime x y n pn = .ok (x', y') → x' * x' + n * (y' * y') = pn) ∧
+    (pn ≠ 2 → ∀ x0 y0 : Int, x0 ≠ 0 → x0 * x0 + n * (y0 * y0) = pn →
+      ∃ x' y', SqiGen.Intbig.ibz_cornacchia_prime x y n pn = .ok (x', y')) := by
+  have hpos : (0 : Int) < pn := by have := hp.pos; omega
+  rw [translated_cornacchia_prime_eq x y n pn hpos (by omega)]
+  refine ⟨fun x' y' h => cornacchia_prime_sound n pn x' y' h, ?_⟩
+  intro hp2 x0 y0 hx0 hsol
+  obtain ⟨x', y', h, _⟩ := cornacchia_prime_complete pn hp hp2 n x0 y0 hn hx0 hsol
+  exact ⟨x', y', h⟩
+
 /-- the specification of `ibz_sqrt_mod_p`, stated directly about the translated code: for every prime p and every a (and
     whatever the output variable contained) — sound, complete, never aborting -/
 theorem translated_sqrt_mod_p_spec (pn : Nat) (hp : pn.Prime) (sqrt a : Int) :
